@@ -241,6 +241,7 @@ Section Exact.
           as (bq & Aq & Hck & HPq & Hbq).
         exists bq, Aq. split; [exact Hck|split; [exact HPq|]]. rewrite Hbq, HRu. reflexivity.
     - (* callable / callable *)
+      rewrite andb_false_r.
       assert (p1 < s /\ r1 < s /\ c1 < s) as (? & ? & ?) by (repeat split; apply (child_lt P Htopo _ _ _ Hls); cbn; auto).
       assert (p2 < p /\ r2 < p /\ c2 < p) as (? & ? & ?) by (repeat split; apply (child_lt P Htopo _ _ _ Hlp); cbn; auto).
       assert (Hbody : forall A0 css cps ss1 ps1, InvR A0 (s + p) ->
@@ -263,6 +264,7 @@ Section Exact.
                           (if cfg_selfstack cfg then push_once ss s else ss) (push_once ps p) HI') as (bq & Aq & Hck & HPq & Hbq).
         exists bq, Aq. split; [exact Hck|split; [exact HPq|]]. rewrite Hbq, HRu. reflexivity.
     - (* process / process *)
+      rewrite andb_false_r.
       assert (s1 < s /\ r1 < s) as (? & ?) by (split; apply (child_lt P Htopo _ _ _ Hls); cbn; auto).
       assert (s2 < p /\ r2 < p) as (? & ?) by (split; apply (child_lt P Htopo _ _ _ Hlp); cbn; auto).
       destruct (HRS A ss ps s1 s2 Hcs1 Hcs2 ltac:(lia) HI') as (b1 & A1' & E1 & HP1 & Hb1). rewrite E1.
